@@ -59,7 +59,7 @@ def cases(tier, seed):
     # histories: an undisturbed block download earlier in the same process (on another client object and network, or
     # on the same client) before the disturbed one
     for n in ((8, 15, 22) if tier == "quick" else (8, 15, 22, 29, 36, 50)):
-        for pre in ("other", "same"):
+        for pre in ("other", "same", "failed-same"):
             for pre_n in (15, 3):
                 for plan in ((127,), (2,), (3, 1)):
                     for crc in ("granted", "not-requested"):
@@ -128,7 +128,27 @@ def one(case, ch):
         plink = RefLink(psrv, node_id=6)
         with plink.node.sdo.open(0x2001, 0, "wb", size=case["pre_n"], block_transfer=True) as fp:
             fp.write(simenv.pattern(case["pre_n"], 77))
-    link = RefLink(srv, req_filter=lambda f: req_filter(f) if state.get("main") else True, idle=idle)
+    def pre_filter(f):
+        # the failing predecessor loses the LAST segment of its (only) sub-block: the client gives up visibly
+        if case.get("pre") == "failed-same" and srv.st and srv.st["kind"] == "bdl" and srv.st["phase"] == "seg" and f[0] & 0x80 \
+                and f[0] != 0x80:
+            return False
+        return True
+    link = RefLink(srv, req_filter=lambda f: req_filter(f) if state.get("main") else pre_filter(f),
+                   idle=lambda l: idle(l) if state.get("main") else None)
+    if case.get("pre") == "failed-same":
+        import canopen as _c
+        try:
+            with link.node.sdo.open(MUX[0], MUX[1], "wb", size=case["pre_n"], block_transfer=True) as fp:
+                fp.write(simenv.pattern(case["pre_n"], 77))
+            raise simenv.HarnessError("the predecessor with a lost last segment did not fail")
+        except (_c.SdoCommunicationError, _c.SdoAbortedError):
+            pass
+        # (no reset of the reference server here: the client's own abort must have ended the transfer there)
+        srv.store.pop(MUX, None)
+        del srv.commits[:], srv.completed[:], srv.violations[:]
+        link.client_frames[:] = []
+        simenv.W.timeouts = 0
     if case.get("pre") == "same":
         with link.node.sdo.open(MUX[0], MUX[1], "wb", size=case["pre_n"], block_transfer=True) as fp:
             fp.write(simenv.pattern(case["pre_n"], 77))
